@@ -5,6 +5,7 @@ from vsa import front
 from vsa.facts import Facts, unwrap, show, walk, lit_value
 from vsa.front import AnalysisBroken
 from vsa.alg import Fold, S, F as Fn, equal, is_zero, guard_strs
+from vsa.cases import resolve_ite
 from vsa.cfg import CFG
 
 LEVEL = "proof"
@@ -312,14 +313,74 @@ def run(rep, tier):
     fo_p = Fold(proc).run()
     acc = [e for e in fo_p.events if e["kind"] == "store" and e.get("idx") and e.get("target_node") is not None
            and unwrap(e["target_node"]).get("k") == "mcall" and unwrap(e["target_node"]).get("callee") == "votca::tools::Table::y"]
-    if len(acc) != 1 or isinstance(acc[0]["idx"][0], (sp.Matrix, tuple)):
-        rep.broken("R4.6", "HistogramNew::Process: expected one accumulation data_.y(index) += w, found %d" % len(acc))
+    if not acc or any(isinstance(a_["idx"][0], (sp.Matrix, tuple)) for a_ in acc):
+        rep.broken("R4.6", "HistogramNew::Process: no accumulation data_.y(index) += w with a scalar index found (%d candidates)" % len(acc))
     else:
-        fl = {a_ for a_ in sp.preorder_traversal(acc[0]["idx"][0]) if str(getattr(a_, "func", "")) == "floor"}
+        # one accumulation statement or several on exclusive paths: the raw index all of them (and their guards) derive from
+        fl = set()
+        for a_ in acc:
+            fl |= {x_ for x_ in sp.preorder_traversal(a_["idx"][0]) if str(getattr(x_, "func", "")) == "floor"}
+            for g_ in list(a_["guards"]) + [y_ for gl_ in a_.get("not", []) for y_ in gl_]:
+                stack_ = [g_[0]]
+                while stack_:
+                    c_ = stack_.pop()
+                    if isinstance(c_, tuple):
+                        stack_ += list(c_)
+                    elif hasattr(c_, "free_symbols"):
+                        fl |= {x_ for x_ in sp.preorder_traversal(c_) if str(getattr(x_, "func", "")) == "floor"}
         want = (S(proc.j["params"][0]["name"]) - S("min_")) / S("step_") + sp.Rational(1, 2)
         ok = len(fl) == 1 and is_zero(list(fl)[0].args[0] - want)
         rep.check(ok, "R4.6", "nearest-bin", "bin = floor((v-min)/step + 1/2)", "HistogramNew::Process bins values with %s: not the bin whose centre is nearest "
                   "(values just below the range are counted in the first bin)" % sorted(str(a_) for a_ in fl), proc.loc(acc[0]["node"]), sample=True)
+    # ---------------------------------------------------------------- R4.8 number of type pairs
+    rep.rule("R4.8", "pair-count normalisation set in BeginEvaluate: norm_ = 1/(N1 N2) for two different bead types and 2/(N1 N2) for one type (the same-type search delivers "
+                     "each unordered pair once), N1, N2 the sizes of the bead lists generated from type1 and type2")
+    be = F.one(I + "BeginEvaluate")
+    rep.analysed(be)
+    fbe = Fold(be, inline=False, record_calls=r"BeadList::Generate$").run()
+    cbe = getattr(fbe, "conds", {})
+    nst = [e for e in fbe.events if e["kind"] == "store" and re.search(r"(\.|->)norm_$", e["target"]) and any("type1" in str(g_[0]) and "type2" in str(g_[0]) for g_ in e["guards"])]
+    gen = {}
+    for e in fbe.events:
+        if e["kind"] == "call" and e["callee"].endswith("BeadList::Generate") and len(e["args"]) == 2:
+            m_ = re.search(r'"(type[12])"', str(e["args"][1]))
+            if m_:
+                gen[m_.group(1)] = e["obj"]
+
+    def same_orc(lf):
+        if isinstance(lf, tuple) and len(lf) == 3 and lf[0] in ("==", "!=") and '"type1"' in str(lf) and '"type2"' in str(lf) and "size(" not in str(lf):
+            return ("SAME", lf[0] == "==")
+        if isinstance(lf, tuple) and len(lf) == 3 and lf[0] in ("==", "!=") and "size(" in str(lf) and "0" in (str(lf[1]), str(lf[2])):
+            return ("EMPTY", lf[0] == "==")
+        return None
+    nst = [e for e in fbe.events if e["kind"] == "store" and re.search(r"(\.|->)norm_$", e["target"]) and len(gen) == 2
+           and any(str(gen[t_]) in str(e["value"]) for t_ in gen)]
+    if len(gen) != 2 or not nst:
+        rep.broken("R4.8", "BeginEvaluate: the bead lists of type1/type2 (%d) or the norm_ assignments under the type comparison (%d) were not found" % (len(gen), len(nst)))
+    else:
+        n1, n2 = Fn("size")(gen["type1"]), Fn("size")(gen["type2"])
+        for same in (True, False):
+            A = {"SAME": same, "EMPTY": False}
+            def runs(e):
+                # only the type comparison selects between the assignments: the other path conditions (loop, non-empty lists) are common to them
+                for c_, pol_, _n in e["guards"]:
+                    o_ = same_orc(c_)
+                    if o_ is not None and o_[0] == "SAME" and (A["SAME"] == o_[1]) != pol_:
+                        return False
+                return True
+            run_ = [e for e in nst if runs(e)]
+            und_ = []
+            if und_ or len(run_) != 1:
+                rep.broken("R4.8", "BeginEvaluate: which norm_ assignment runs for %s types is not decided (%d run, %d undecided)" % ("equal" if same else "different", len(run_), len(und_)))
+                continue
+            v_ = run_[0]["value"]
+            if hasattr(v_, "args"):
+                v_ = resolve_ite(v_, lambda cs: decide(cbe[cs], None, A, same_orc, cbe) if cs in cbe else None)
+            wants = [(2 if same else 1) / (n1 * n2)] + ([2 / (n1 * n1), 2 / (n2 * n2)] if same else [])
+            ok8 = not isinstance(v_, (tuple, sp.Matrix)) and any(is_zero(v_ - w_) for w_ in wants)
+            rep.check(ok8, "R4.8", "pair-count|%s" % ("same-type" if same else "cross-type"), "norm_ = %s/(N1 N2)" % (2 if same else 1),
+                      "Imc::BeginEvaluate: for %s bead types norm_ = %s (required %s/(N1 N2)): the distribution of an ideal gas is %s" % (
+                          "equal" if same else "different", str(v_)[:120], 2 if same else 1, "1/2 or 2 instead of 1"), be.loc(run_[0]["node"]), sample=True)
     rep.assumptions += ["pair search completeness and exclusions are C03's subject; bin memory safety is C13's",
                         "M_PI literal compared numerically with pi (1e-12); all other factors exactly"]
     rep.trusted.append("sympy exact polynomial arithmetic")
